@@ -19,7 +19,7 @@ const STUB: [&str; 4] = [
 ];
 
 pub fn all() -> Vec<Property> {
-    vec![c01(), c02(), c06(), c07(), c08(), c09(), c10(), c11(), c12(), c13(), c17()]
+    vec![c01(), c02(), c06(), c07(), c08(), c09(), c10(), c11(), c12(), c13(), c14(), c17()]
 }
 
 fn c06() -> Property {
@@ -32,14 +32,16 @@ fn c06() -> Property {
                 weight: 4,
                 make: || Box::pin(scen::c06::run()),
                 max_steps: 3_000_000,
-                note: "two real Transports joined by the simulated stream",
+                cases_per_seed: 1,
+            note: "two real Transports joined by the simulated stream",
             },
             Variant {
                 name: "pair-traffic-size-model",
                 weight: 1,
                 make: || Box::pin(scen::c01::run_sizes()),
                 max_steps: 3_000_000,
-                note: "the C01 pair workload judged by the frame-size and decodability models only",
+                cases_per_seed: 1,
+            note: "the C01 pair workload judged by the frame-size and decodability models only",
             },
         ],
         quick_runs: 20_000,
@@ -65,21 +67,24 @@ fn c17() -> Property {
                 weight: 1,
                 make: || Box::pin(scen::c17::run_channel_max()),
                 max_steps: 3_000_000,
-                note: "real client <-> real listener with seeded channel-max on both sides",
+                cases_per_seed: 1,
+            note: "real client <-> real listener with seeded channel-max on both sides",
             },
             Variant {
                 name: "heartbeat-vs-scripted-peer",
                 weight: 2,
                 make: || Box::pin(scen::c17::run_heartbeat()),
                 max_steps: 3_000_000,
-                note: "real client / listener <-> scripted peer advertising an idle time-out; virtual time",
+                cases_per_seed: 1,
+            note: "real client / listener <-> scripted peer advertising an idle time-out; virtual time",
             },
             Variant {
                 name: "local-idle-time-out-vs-scripted-peer",
                 weight: 2,
                 make: || Box::pin(scen::c17::run_local_idle()),
                 max_steps: 3_000_000,
-                note: "real client / listener with its own idle time-out <-> scripted peer producing gaps below T, then silence",
+                cases_per_seed: 1,
+            note: "real client / listener with its own idle time-out <-> scripted peer producing gaps below T, then silence",
             },
         ],
         quick_runs: 10_000,
@@ -95,6 +100,41 @@ fn c17() -> Property {
     }
 }
 
+fn c14() -> Property {
+    Property {
+        id: "C14",
+        level: "fault_enumeration",
+        variants: vec![
+            Variant {
+                name: "transport-cut-sweep",
+                weight: 1,
+                make: || Box::pin(scen::c14::run_cut()),
+                max_steps: 3_000_000,
+                cases_per_seed: scen::c14::CASES,
+                note: "real client <-> real listener reference conversation; the transport is cut at every byte offset of either direction, three cut kinds",
+            },
+            Variant {
+                name: "peer-initiated-stop",
+                weight: 1,
+                make: || Box::pin(scen::c14::run_peer_initiated()),
+                max_steps: 3_000_000,
+                cases_per_seed: 1,
+                note: "real client <-> scripted peer that closes / ends / detaches with or without an error after a seeded number of frames",
+            },
+        ],
+        quick_runs: 2 * scen::c14::CASES,
+        thorough_runs: 40 * scen::c14::CASES,
+        rule: "(a) per seed (= network behaviour and schedule) a fixed reference conversation (open, two sessions, an unsettled sender with three batchable sends of which one is multi-frame plus a plain send, a receiver with two deliveries, detach, close, end, close) is run once per (direction, byte offset 0..=MAX, cut kind in {eof, reset, stall-then-eof}); offsets beyond the conversation are counted as skipped (trivial); (b) per seed one scripted-peer run with the stop kind, error presence and position drawn from the seed; distinct = distinct event-log hash",
+        assumptions: vec![
+            "a call returning Ok after the cut is accepted when it raced the failure (its request was queued before the engine noticed); calls made after quiescence must fail",
+            "connection.close() may return Ok only when both close frames crossed the wire before the cut",
+        ],
+        real_components: REAL.to_vec(),
+        stub_components: STUB.to_vec(),
+        expected_probes: vec!["late-attach-error-names-the-stop", "late-operation-failed", "peer-error-carried-by-link-error", "re-attach-after-suspension", "cut-beyond-conversation"],
+    }
+}
+
 fn c13() -> Property {
     Property {
         id: "C13",
@@ -104,6 +144,7 @@ fn c13() -> Property {
             weight: 1,
             make: || Box::pin(scen::life::run_c13()),
             max_steps: 3_000_000,
+            cases_per_seed: 1,
             note: "real client <-> real listener, seeded begin/attach/send/detach/close/drop/end sequences",
         }],
         quick_runs: 5_000,
@@ -127,6 +168,7 @@ fn c11() -> Property {
             weight: 1,
             make: || Box::pin(scen::life::run_c11()),
             max_steps: 3_000_000,
+            cases_per_seed: 1,
             note: "real client <-> real listener, seeded begin/attach/send/detach/close/drop/end sequences",
         }],
         quick_runs: 5_000,
@@ -149,14 +191,16 @@ fn c12() -> Property {
                 weight: 1,
                 make: || Box::pin(scen::c12::run_client()),
                 max_steps: 3_000_000,
-                note: "real client connection <-> scripted peer",
+                cases_per_seed: 1,
+            note: "real client connection <-> scripted peer",
             },
             Variant {
                 name: "listener-vs-scripted-client",
                 weight: 1,
                 make: || Box::pin(scen::c12::run_listener()),
                 max_steps: 3_000_000,
-                note: "real listener connection <-> scripted peer",
+                cases_per_seed: 1,
+            note: "real listener connection <-> scripted peer",
             },
         ],
         quick_runs: 20_000,
@@ -181,14 +225,16 @@ fn c02() -> Property {
                 weight: 1,
                 make: || Box::pin(scen::c02::run_pair()),
                 max_steps: 3_000_000,
-                note: "real sender <-> real receiver applying seeded outcomes",
+                cases_per_seed: 1,
+            note: "real sender <-> real receiver applying seeded outcomes",
             },
             Variant {
                 name: "scripted-receiver-disposition-histories",
                 weight: 1,
                 make: || Box::pin(scen::c02::run_scripted_receiver()),
                 max_steps: 3_000_000,
-                note: "real sender(s) <-> scripted receiver producing arbitrary disposition histories",
+                cases_per_seed: 1,
+            note: "real sender(s) <-> scripted receiver producing arbitrary disposition histories",
             },
         ],
         quick_runs: 6_000,
@@ -213,14 +259,16 @@ fn c10() -> Property {
                 weight: 3,
                 make: || Box::pin(scen::c10::run_client()),
                 max_steps: 3_000_000,
-                note: "real client Receiver(s) <-> scripted sender that fragments deliveries",
+                cases_per_seed: 1,
+            note: "real client Receiver(s) <-> scripted sender that fragments deliveries",
             },
             Variant {
                 name: "listener-receiver-vs-fragmenting-sender",
                 weight: 1,
                 make: || Box::pin(scen::c10::run_listener()),
                 max_steps: 3_000_000,
-                note: "real listener-side Receiver(s) <-> scripted sender that fragments deliveries",
+                cases_per_seed: 1,
+            note: "real listener-side Receiver(s) <-> scripted sender that fragments deliveries",
             },
         ],
         quick_runs: 10_000,
@@ -246,14 +294,16 @@ fn c09() -> Property {
                 weight: 3,
                 make: || Box::pin(scen::c09::run_client()),
                 max_steps: 3_000_000,
-                note: "real client Receiver <-> scripted sender",
+                cases_per_seed: 1,
+            note: "real client Receiver <-> scripted sender",
             },
             Variant {
                 name: "listener-receiver-vs-scripted-sender",
                 weight: 1,
                 make: || Box::pin(scen::c09::run_listener()),
                 max_steps: 3_000_000,
-                note: "real listener-side Receiver (LinkAcceptor) <-> scripted client sender",
+                cases_per_seed: 1,
+            note: "real listener-side Receiver (LinkAcceptor) <-> scripted client sender",
             },
         ],
         quick_runs: 8_000,
@@ -279,14 +329,16 @@ fn c08() -> Property {
                 weight: 3,
                 make: || Box::pin(scen::c08::run_client()),
                 max_steps: 3_000_000,
-                note: "real client Sender <-> scripted receiver",
+                cases_per_seed: 1,
+            note: "real client Sender <-> scripted receiver",
             },
             Variant {
                 name: "listener-sender-vs-scripted-receiver",
                 weight: 1,
                 make: || Box::pin(scen::c08::run_listener()),
                 max_steps: 3_000_000,
-                note: "real listener-side Sender (LinkAcceptor) <-> scripted client receiver",
+                cases_per_seed: 1,
+            note: "real listener-side Sender (LinkAcceptor) <-> scripted client receiver",
             },
         ],
         quick_runs: 10_000,
@@ -312,14 +364,16 @@ fn c07() -> Property {
                 weight: 7,
                 make: || Box::pin(scen::c07::run_main()),
                 max_steps: 3_000_000,
-                note: "real client session <-> scripted receiving session end; link-level multi-frame transfers only",
+                cases_per_seed: 1,
+            note: "real client session <-> scripted receiving session end; link-level multi-frame transfers only",
             },
             Variant {
                 name: "transport-level-split",
                 weight: 1,
                 make: || Box::pin(scen::c07::run_split()),
                 max_steps: 3_000_000,
-                note: "same, with payloads that the transport splits below the session layer",
+                cases_per_seed: 1,
+            note: "same, with payloads that the transport splits below the session layer",
             },
         ],
         quick_runs: 6000,
@@ -345,6 +399,7 @@ fn c01() -> Property {
             weight: 1,
             make: || Box::pin(scen::c01::run()),
             max_steps: 3_000_000,
+            cases_per_seed: 1,
             note: "real client <-> real listener",
         }],
         quick_runs: 6000,
